@@ -69,6 +69,10 @@ func c27ChanFix(f *c27Filler, v reflect.Value) {
 		if fd, msg := v.FieldByName("Found"), v.FieldByName("Message"); fd.IsValid() && msg.IsValid() && fd.Kind() == reflect.Bool && !fd.Bool() {
 			msg.Set(reflect.Zero(msg.Type()))
 		}
+		// a failed batch item carries only its error
+		if er, rs := v.FieldByName("Err"), v.FieldByName("Response"); t.Name() == "PullBatchItemResult" && er.IsValid() && rs.IsValid() && !er.IsNil() {
+			rs.Set(reflect.Zero(rs.Type()))
+		}
 		if so := v.FieldByName("SyncOnce"); so.IsValid() && so.Kind() == reflect.Bool && (t.Name() == "Message" || t.Name() == "Record") && !f.R.Chance(4) {
 			so.SetBool(false)
 		}
